@@ -87,6 +87,77 @@ fn check_missing_bounds(m: &Model, c: &mut Case) {
     }
 }
 
+/// coverage boost for the reified logic auxiliaries (`$iff_k`, `$implies_k`, `$xor_k`, `$and_k`, `$or_k`) and the
+/// `NonBinaryLogicOperand` error: a logic operator in VALUE position, operands Boolean variables, 0/1 literals,
+/// negations, or (hostile) a real variable / the literal 2.
+fn logic_aux_case(r: &mut Rng) -> Case {
+    let v = |n: &str| Exp::Variable(n.into());
+    let k = |x: f64| Exp::Number(x);
+    let mut operand = |r: &mut Rng| -> Exp {
+        match r.below(9) {
+            0 | 1 => v("a"), 2 | 3 => v("b"), 4 => Exp::Not(Box::new(v("c"))), 5 => v("c"),
+            6 => k(if r.chance(1, 2) { 1.0 } else { 0.0 }),
+            7 => v("y"),          // not Boolean: NonBinaryLogicOperand
+            _ => k(2.0),          // not 0/1: NonBinaryLogicOperand
+        }
+    };
+    let x = operand(r); let y = operand(r);
+    let logic = match r.below(6) {
+        0 => Exp::Iff(Box::new(x), Box::new(y)),
+        1 => Exp::Implies(Box::new(x), Box::new(y)),
+        2 => Exp::Xor(Box::new(x), Box::new(y)),
+        3 => Exp::And(vec![x, y, operand(r)]),
+        4 => Exp::Or(vec![x, y]),
+        _ => Exp::Iff(Box::new(Exp::Implies(Box::new(x), Box::new(y))), Box::new(operand(r))),
+    };
+    let ds = vec![
+        VarDecl { name: "a".into(), ty: VariableType::Boolean }, VarDecl { name: "b".into(), ty: VariableType::Boolean },
+        VarDecl { name: "c".into(), ty: VariableType::Boolean }, VarDecl { name: "y".into(), ty: VariableType::Real(-3.0, 3.0) },
+    ];
+    // value position: the logic expression is an addend
+    let lhs = Exp::BinOp(BinOp::Add, Box::new(logic.clone()), Box::new(v("y")));
+    let cmp = *r.pick(&[Comparison::LessOrEqual, Comparison::GreaterOrEqual, Comparison::Equal]);
+    let cons = vec![Constraint::new(lhs, cmp, k(1.0), if r.chance(1, 2) { "t".into() } else { String::new() })];
+    let obj = if r.chance(1, 3) { Exp::BinOp(BinOp::Add, Box::new(logic), Box::new(v("y"))) } else { v("y") };
+    let m = gen_model::build(if r.chance(1, 2) { OptimizationType::Max } else { OptimizationType::Min }, obj, cons, &ds);
+    crate::props::c01::one(&m, "logic-aux", "c08")
+}
+
+/// metamorphic check of determinism up to the order of the domain map: the same objective and constraints with the
+/// declarations in a different order must compile to the same variables, objective, offset and rows, and to the same
+/// domain as a SET (the order of `LinearModel::domain` follows the declaration order).
+fn permutation_case(r: &mut Rng, tag: &str, cfg: &ModelCfg) -> Case {
+    let (m, ds) = gen_model::model(r, cfg);
+    let mut c = crate::props::c01::one(&m, tag, "c08");
+    c.tags.push("domain-permutation".into());
+    if ds.len() < 2 { return c; }
+    let mut ds2: Vec<VarDecl> = ds.iter().map(|d| VarDecl { name: d.name.clone(), ty: d.ty }).collect();
+    match r.below(3) { 0 => ds2.reverse(), 1 => { let k = 1 + r.below(ds2.len() - 1); ds2.rotate_left(k); } _ => { let i = r.below(ds2.len()); let j = r.below(ds2.len()); ds2.swap(i, j); } }
+    let m2 = gen_model::build(m.objective().objective_type.clone(), m.objective().rhs.clone(), m.constraints().to_vec(), &ds2);
+    let a = Linearizer::linearize(m);
+    let b = Linearizer::linearize(m2);
+    match (&a, &b) {
+        (Ok(la), Ok(lb)) => {
+            let rows = |l: &rooc::LinearModel| l.constraints().iter().map(|c| format!("{}|{:?}|{:?}|{:?}", c.name(), c.coefficients().iter().map(|x| x.to_bits()).collect::<Vec<_>>(), c.constraint_type(), c.rhs().to_bits())).collect::<Vec<_>>();
+            let mut da: Vec<String> = la.domain().iter().map(|(n, d)| format!("{}:{:?}", n, d.get_type())).collect();
+            let mut db: Vec<String> = lb.domain().iter().map(|(n, d)| format!("{}:{:?}", n, d.get_type())).collect();
+            da.sort(); db.sort();
+            let same = la.variables() == lb.variables() && rows(la) == rows(lb)
+                && la.objective().iter().map(|x| x.to_bits()).collect::<Vec<_>>() == lb.objective().iter().map(|x| x.to_bits()).collect::<Vec<_>>()
+                && la.objective_offset().to_bits() == lb.objective_offset().to_bits() && da == db;
+            if !same { c.impl_violation = Some("the compiled model depends on the ORDER of the variable declarations".into()); }
+            else { c.tags.push("permutation-invariant".into()); }
+        }
+        (Err(ea), Err(eb)) => {
+            if crate::props::c01::lin_error(ea) != crate::props::c01::lin_error(eb) {
+                c.impl_violation = Some(format!("the compilation error depends on the order of the declarations: {} vs {}", crate::props::c01::lin_error(ea), crate::props::c01::lin_error(eb)));
+            } else { c.tags.push("permutation-invariant".into()); }
+        }
+        _ => { c.impl_violation = Some("compilation succeeds or fails depending on the order of the variable declarations".into()); }
+    }
+    c
+}
+
 pub fn generate(seed: u64, n: usize, thorough: bool, corpus: Option<&str>) -> Vec<Case> {
     let mut out = crate::props::c01::generate_for("c08", seed.wrapping_add(2000), n, thorough, corpus);
     let mut r = Rng::new(seed ^ 0xC08).fork();
@@ -98,6 +169,12 @@ pub fn generate(seed: u64, n: usize, thorough: bool, corpus: Option<&str>) -> Ve
         let mut c = crate::props::c01::one(&m, "missing-bounds", "c08");
         check_missing_bounds(&m, &mut c);
         out.push(c);
+    }
+    for _ in 0..(n / 10).max(30) { out.push(logic_aux_case(&mut r)); }
+    let cfgs = crate::props::c01::configs();
+    for i in 0..(n / 5).max(40) {
+        let (tag, cfg) = &cfgs[i % cfgs.len()];
+        out.push(permutation_case(&mut r, tag, cfg));
     }
     let _ = sx::num;
     out
